@@ -967,7 +967,7 @@ func main() {
 				}(k)
 			}
 		}
-		extra("votes", o.Pick(1, 4), func(idx int, local *stats) string { return scenarioVotes(o, idx, local) })
+		extra("votes", o.Pick(3, 9), func(idx int, local *stats) string { return scenarioVotes(o, idx, local) })
 		extra("storm", o.Pick(1, 3), func(idx int, local *stats) string { return scenarioStorm(o, idx, local, "c07") })
 		wg.Add(1)
 		go func() {
